@@ -13,9 +13,10 @@ FORBIDDEN = re.compile(r'\b(sorry|admit|native_decide|bv_decide|implemented_by|u
 
 # which Lean modules carry the property theorems of each property
 PROP_MODULES = {
-    'C01': ['Props.C01', 'Props.C01Stream'], 'C02': ['Props.C02', 'Props.C02Model', 'Props.C02ModelAll'], 'C03': ['Props.C03Tables', 'Props.C03', 'Props.C03Message'], 'C04': ['Props.C04'],
+    'C01': ['Props.C01', 'Props.C01Stream', 'Props.C01Placement'], 'C02': ['Props.C02', 'Props.C02Model', 'Props.C01Placement'], 'C03': ['Props.C03Tables', 'Props.C03', 'Props.C03Message'], 'C04': ['Props.C04'],
     'C05': ['Props.C05'], 'C06': ['Props.C06'], 'C07': ['Props.C07'], 'C08': ['Props.C08'], 'C09': ['Props.C09'],
-    'C10': ['Props.C10'], 'C11': ['Props.C11'], 'C12': ['Props.C12'], 'C13': ['Props.C13'], 'C14': ['Props.C14'],
+    'C10': ['Props.C10'], 'C11': ['Props.C11Align1', 'Props.C11Align2', 'Props.C11Align3', 'Props.C11Align4', 'Props.C11Align5', 'Props.C11Align6',
+            'Props.C11Align7', 'Props.C11Align8', 'Props.C11'], 'C12': ['Props.C12'], 'C13': ['Props.C13'], 'C14': ['Props.C14'],
     'C15': ['Props.C15'], 'C16': ['Props.C16'],
 }
 
@@ -95,6 +96,8 @@ def prepare(prop, thorough=False):
             st.model_ok = False
             st.broken.append(('build of the model (Gen/Model no longer type-check against the regenerated tables)', errors_of(out)))
         modules = [m for m in PROP_MODULES[prop] if theorems_of(m)[0] is not None]
+        if len(modules) > 1:
+            run(['lake', 'build'] + modules, cwd=LEAN)   # all at once (lake builds them in parallel); judged per module below
         for m in modules:
             names, path = theorems_of(m)
             st.obligations += names
